@@ -42,6 +42,59 @@ theorem spectable_shape :
     (∀ sp ∈ specTable, sp.arity = 1 ∨ sp.arity = 2) ∧
     (∀ sp ∈ specTable, sp.reflected = true → sp.arity = 2) := by decide
 
+/-! ### C01.3c — any class built with the metaclass: missing builders, `__operators__` selections -/
+
+/-- with all three builders present the general loop is the loop of `class Stream` -/
+theorem installW_full (T : TableSrc) (ns : List Name) : ∀ (ops : List OpMethod) (acc : List (Name × Dunder)),
+    installLoopW T (fun _ => true) ns ops acc =
+      match installLoop { T with classNamespace := ns } ops acc with
+      | some r => .ok r
+      | none => .error .keyError := by
+  intro ops
+  induction ops with
+  | nil => intro acc; rfl
+  | cons op ops ih =>
+    intro acc
+    simp only [installLoopW, installLoop]
+    by_cases h : ns.contains op.dname = true
+    · simp only [h, if_true]; exact ih acc
+    · simp only [h, Bool.false_eq_true, if_false]
+      cases hb : (T.dispatch.lookup (op.rev, op.arity)).bind builderOfName with
+      | none => rfl
+      | some b => simp only [if_true]; exact ih _
+
+/-- class creation succeeds exactly when every selected operator method that the class body does not
+    define itself has a builder; otherwise it fails (TypeError naming an operator method, or KeyError) -/
+theorem installW_ok_iff (T : TableSrc) (hv : Builder → Bool) (ns : List Name) :
+    ∀ (ops : List OpMethod) (acc : List (Name × Dunder)),
+    (installLoopW T hv ns ops acc).isOk =
+      ops.all fun op => ns.contains op.dname ||
+        (match (T.dispatch.lookup (op.rev, op.arity)).bind builderOfName with
+         | some b => hv b
+         | none => false) := by
+  intro ops
+  induction ops with
+  | nil => intro acc; rfl
+  | cons op ops ih =>
+    intro acc
+    simp only [installLoopW, List.all_cons]
+    by_cases h : ns.contains op.dname = true
+    · simp only [h, if_true, Bool.true_or, Bool.true_and]; exact ih acc
+    · simp only [h, Bool.false_eq_true, if_false, Bool.false_or]
+      cases hb : (T.dispatch.lookup (op.rev, op.arity)).bind builderOfName with
+      | none => simp [Except.isOk, Except.toBool]
+      | some b =>
+        cases hvb : hv b with
+        | true => simp only [hvb, if_true, Bool.true_and]; exact ih _
+        | false => simp [hvb, Except.isOk, Except.toBool]
+
+/-- non-vacuity: a metaclass with only `__binary__` asked for `"+"` (add, radd, pos) fails at `__radd__`;
+    asked for `add` alone it succeeds; an unknown operator name is a ValueError -/
+example : installW ALV.Gen.OpTable.table (fun b => b == .binary) [] [n!"+"] [] = .error (.noBuilder n!"__radd__") := by rfl
+example : (installW ALV.Gen.OpTable.table (fun b => b == .binary) [] [n!"add"] []).isOk = true := by decide
+example : (installW ALV.Gen.OpTable.table (fun b => b == .binary) [n!"__radd__", n!"__pos__"] [n!"+"] []).isOk = true := by decide
+example : installW ALV.Gen.OpTable.table (fun _ => true) [] [n!"div"] [] = .error .valueError := by rfl
+
 /-! ### C01.1 / C01.2 — iterator trees (any shape, any depth, finite / empty / unequal / endless) -/
 
 /-- **C01.1 (iterators)** the i-th item delivered is the pointwise reading of the tree at i. -/
